@@ -142,11 +142,13 @@ def situation_labels(beh) -> set:
     return out
 
 
-def select_covering(behs, num, seed, k=2):
+def select_covering(behs, num, seed, k=2, prefixes=None):
     """Greedy k-fold set cover over the situation labels (every label is covered by k different behaviours where the
     pool has that many; shortest behaviour first among equals), then a seeded random fill up to `num` behaviours."""
     import random
     labs = [situation_labels(b) for b in behs]
+    if prefixes:   # only the situations the caller is interested in have to be covered
+        labs = [{x for x in ls if x.startswith(tuple(prefixes))} for ls in labs]
     need = {}
     for ls in labs:
         for x in ls:
@@ -176,7 +178,7 @@ def select_covering(behs, num, seed, k=2):
                                               'pool': len(behs)}
 
 
-def generate(run, num, depth, seed, cfg='Mdib_sim.cfg', module='MdibMC', pool=None, fold=2):
+def generate(run, num, depth, seed, cfg='Mdib_sim.cfg', module='MdibMC', pool=None, fold=2, prefixes=None):
     """`pool` behaviours are simulated by TLC; the ones replayed are chosen to cover every situation label of the pool
     (select_covering) and filled up to `num` at random (more than `num` if the cover needs more)."""
     pool = pool or max(num, run.pick(3000, 12000))
@@ -185,7 +187,7 @@ def generate(run, num, depth, seed, cfg='Mdib_sim.cfg', module='MdibMC', pool=No
     behs = json_lines(res.stdout, 'BEH')
     if len(behs) < pool // 2:
         raise MachineryError(f'expected about {pool} behaviours from TLC, got {len(behs)}')
-    behs, stats = select_covering(behs, num, seed, k=fold)
+    behs, stats = select_covering(behs, num, seed, k=fold, prefixes=prefixes)
     run.note('situation_coverage', stats)
     return behs
 
@@ -255,12 +257,14 @@ def model_check(run, thorough_cfg=None):
         run.add_tlc(res)
 
 
-def run_family(run, pid, extra_behaviours=None):
-    """Common body of the C02 and C03 checks."""
-    model_check(run, 'Mdib_mc_thorough.cfg')
-    num = run.pick(200, 6000)
-    behs = generate(run, num, run.pick(30, 40), run.seed)
-    behs = lifecycle_behaviours(run) + behs
+def run_family(run, pid, extra_behaviours=None, with_model=True, lifecycle=True, num=None, fold=2, prefixes=None):
+    """Common body of the C02 and C03 checks (and of the transaction part of C11)."""
+    if with_model:
+        model_check(run, 'Mdib_mc_thorough.cfg')
+    num = num or run.pick(200, 6000)
+    behs = generate(run, num, run.pick(30, 40), run.seed, fold=fold, prefixes=prefixes)
+    if lifecycle:
+        behs = lifecycle_behaviours(run) + behs
     if extra_behaviours:
         behs = extra_behaviours + behs
     traces = record(behs)
